@@ -93,7 +93,7 @@ CLAIMED.update({
     'C13': dict(
         text='C13_csv_frontend_faithful_quoted / _simple (a table written by the CSV writer and read back by the reader MACHINE in any chunking, LF/CRLF/CR, is the table, header first, no warning but the field-count warning of a ragged table: query_csv sees what query_table is given); C13_engine_depends_on_records_only, C13_frontends_agree (any two faithful adapters), C13_csv_adapter_faithful_line/file (C10 + C12 composed), C13_cli_outcome (decision table of the command line). '
              'The REAL entry points — query_table, query with user iterator/writer, query_csv, python -m rbql (file and stdin/stdout; out-format input/csv/tsv), pandas, sqlite + query_sqlite_to_csv — are run on the same '
-             'queries and data (incl. JOIN with the join table as list / CSV file / DataFrame / sqlite table, sqlite tables with generated columns) and compared; CLI exit status / stdout / stderr discipline on success, warnings and four error classes.',
+             'queries and data (incl. JOIN with the join table as list / CSV file / DataFrame / sqlite table, sqlite tables with generated columns) and compared; CLI exit status / stdout / stderr discipline on success, warnings and four error classes. The rbql-js entry points (query_table, query_csv streamed and bulk_read, cli_rbql.js on files and on stdin/stdout) are compared in the same way, with column names that need quoting.',
         note='Partial: pandas, sqlite3, argparse and the process boundary are third-party adapters assumed faithful in the theorem and tied only dynamically.',
         ref='DESIGN.md section 7, C13'),
     'C16': dict(
